@@ -9,15 +9,15 @@ var defaultCfg = Cfg{Tag: "bexpr"}
 
 func init() {
 	eng.Register(&eng.Check{
-		ID: "C01",
-		Rule: "E1 bounded product: every expression of the bounded expression universe (match: selectors x 8 operators x literal alphabet; quantifiers x 4 binding modes x body templates, nesting<=3; connectives over an atom pool) x every typed abstract document (leaves of all scalar kinds/named/json.Number/nil/pointers, every container constructor over them, top-level map/struct/pointer-to-struct, JSON-decoded documents in both decodings), default configuration; each case executed on the real Evaluate and on the reference interpreter; cases are distinct by construction; non-trivial = at least one match selector resolved or hit the absent-key table in the reference (the operator was exercised).",
+		ID:   "C01",
+		Rule: "E1 bounded product: every expression of the bounded expression universe (match: selectors x 8 operators x literal alphabet; quantifiers x 4 binding modes x body templates, nesting<=3; connectives over an atom pool) x every typed abstract document (leaves of all scalar kinds/named/json.Number/nil/pointers, every container constructor over them, top-level map/struct/pointer-to-struct, JSON-decoded documents in both decodings), default configuration, plus a reduced product (every 7th expression) under hook / unknown-value / tag configurations over documents with values behind a wrapper struct; each case executed on the real Evaluate and on the reference interpreter; cases are distinct by construction; non-trivial = at least one match selector resolved or hit the absent-key table in the reference (the operator was exercised).",
 		Assumptions: []string{"reference interpreter (verifmc/model) written from README/doc comments/property statements; two-element allowed sets only in the unspecified cells U1-U6 of DESIGN.md 4.3",
 			"trusted: Go reflect/regexp/math/big/strconv, pointerstructure+mapstructure behaviour as mirrored in the reference", "bounded: nothing claimed beyond the stated alphabets"},
 		Run: runC01,
 	})
 	eng.Register(&eng.Check{
-		ID: "C09",
-		Rule: "E1 bounded product (same universe as C01, all 27 reflect kinds as top-level datum / map value / struct field / slice element / under non-string-keyed maps / as unknown value) with the totality oracle: no panic, err!=nil implies result==false; non-trivial = the selector resolved (an operator met a value).",
+		ID:          "C09",
+		Rule:        "E1 bounded product (same universe as C01, all 27 reflect kinds as top-level datum / map value / struct field / slice element / under non-string-keyed maps / as unknown value) with the totality oracle: no panic, err!=nil implies result==false; non-trivial = the selector resolved (an operator met a value).",
 		Assumptions: []string{"bounded: operator x kind matrix over the stated universe; recoverable panics are observed in-process, unrecoverable fatals as worker crashes"},
 		Run:         runC09,
 	})
@@ -31,7 +31,7 @@ func runC01(c *eng.Ctx) {
 	p := e1Product(c)
 	c.MaxOf("expressions", int64(len(p.exprs)))
 	c.MaxOf("documents", int64(len(p.docs)))
-	p.run(c, func(src string, e any, d *Node, cfg Cfg, want int, got obsT, co map[string]int) {
+	judge := func(src string, e any, d *Node, cfg Cfg, want int, got obsT, co map[string]int) {
 		c.R.States++
 		if got.panicked {
 			c.Violate(eng.Violation{Kind: "panic", Key: caseKey(src, d, cfg), Coords: co, Case: describe(src, d, cfg), Expected: SetStr(want), Observed: got.String(), Detail: got.msg})
@@ -46,7 +46,34 @@ func runC01(c *eng.Ctx) {
 			c.Count("unspecified-cell")
 		}
 		c.Sample(describe(src, d, cfg))
-	})
+	}
+	p.run(c, judge)
+	if !c.Replaying() || c.Only["slice"] == 1 {
+		cs := configSlice(c)
+		cs.run(c, func(src string, e any, d *Node, cfg Cfg, want int, got obsT, co map[string]int) {
+			co["slice"] = 1
+			judge(src, e, d, cfg, want, got, co)
+		})
+	}
+}
+
+// configSlice: a reduced product under non-default configurations (identity / unwrap hook, unknown value, json tag)
+// over documents whose values sit behind the wrapper struct at leaf and parent positions. C05 and C18 own these
+// configurations; the slice makes C01's "reference agreement" see them as well.
+func configSlice(c *eng.Ctx) *product {
+	mp := func(kv ...*Node) *Node { return NMap(TStr, TAny, kv...) }
+	var ds []*Node
+	for _, in := range []*Node{one, str("a"), mp(str("a"), one), mp(), NSlice(TAny, one, str("a")), NNilAny(), NStruct(F{Name: "A", Tag: `bexpr:"a" json:"ja"`, V: one}, F{Name: "J", Tag: `json:"a" bexpr:"-"`, V: str("a")})} {
+		ds = append(ds, mp(str("a"), in), mp(str("a"), NWrapper(in)), mp(str("a"), mp(str("a"), NWrapper(in))), mp(str("a"), NWrapper(mp(str("a"), in))), mp(str("a"), NSlice(TAny, NWrapper(in), in)),
+			NStruct(F{Name: "A", Tag: `bexpr:"a" json:"ja"`, V: NAny(NWrapper(in))}, F{Name: "J", Tag: `json:"a" bexpr:"-"`, V: NAny(in)}), mp(str("a"), NPtr(NWrapper(in))))
+	}
+	var es []any
+	for i, e := range exprs(false) {
+		if i%7 == 0 {
+			es = append(es, e)
+		}
+	}
+	return &product{exprs: es, docs: ds, cfgs: []Cfg{{Tag: "bexpr", Hook: HookUnwrap}, {Tag: "bexpr", Hook: HookIdentity}, {Tag: "json", Hook: HookUnwrap}, {Tag: "bexpr", Unknown: one}, {Tag: "", Hook: HookUnwrap, Unknown: str("a")}}}
 }
 
 func runC09(c *eng.Ctx) {
